@@ -274,8 +274,8 @@ func runC14(rc *RunCtx) {
 	rc.Level = "fault_enumeration"
 	rc.Cov = map[string]interface{}{
 		"evaluations": int(runs) + len(cfgs), "distinct_nontrivial": int(nontrivial),
-		"rule":          fmt.Sprintf("for each configuration the fault-free twin fixes the number n of mutating bank calls in the two faulty blocks; every non-empty subset of failing call indices is run when n+1 <= %d, otherwise every subset of size <= %d (iterative deviation bounding). Non-trivial = runs in which at least one injected fault was actually hit; each (configuration, fault set) is distinct by construction.", maxAll, bound),
-		"samples":       samples, "configurations": len(cfgs), "max_calls_in_faulty_blocks": int(maxCalls), "fault_sets_by_size": perBound,
+		"rule":    fmt.Sprintf("for each configuration the fault-free twin fixes the number n of mutating bank calls in the two faulty blocks; every non-empty subset of failing call indices is run when n+1 <= %d, otherwise every subset of size <= %d (iterative deviation bounding). Non-trivial = runs in which at least one injected fault was actually hit; each (configuration, fault set) is distinct by construction.", maxAll, bound),
+		"samples": samples, "configurations": len(cfgs), "max_calls_in_faulty_blocks": int(maxCalls), "fault_sets_by_size": perBound,
 		"bank_call_kinds_seen_in_twins": kindsSeen, "deviation_bound_completed": bound, "exhaustive": true,
 	}
 	rc.Assume = []string{"a failing bank call has no side effect and returns an SDK error", "module level with a cfedistributor keeper built by the exported NewKeeper over the app's own store keys"}
